@@ -131,7 +131,7 @@ def coq_op(L, op):
     n = coq_nat
     if k == "NewSession":
         return f"(ONewSession {L.path([op[1]])})"
-    if k in ("OpenSp", "OpenSpLive"):
+    if k in ("OpenSp", "OpenSpLive", "OpenSpT"):
         # OpenSpLive: the same state point, some of whose nested values are handed over as LIVE collections of a job
         # document (the model has plain values only: open_job must take the data as it is at the time of the call)
         return f"(OOpenSp {n(op[1])} {L.json(untyped(op[2]))})"
@@ -151,6 +151,10 @@ def coq_op(L, op):
         return f"(OCached {n(op[1])})"
     if k == "DocReset":
         return f"(ODocReset {n(op[1])} {L.json(untyped(op[2]))})"
+    if k == "DocResetLive":
+        # ["DocResetLive", h, h2, typed value of H[h2].document]: job.document = <the LIVE document object of handle h2>
+        # (h2 = h: `job.doc = job.doc`); the model assigns the value that document holds
+        return f"(ODocReset {n(op[1])} {L.json(untyped(op[3]))})"
     if k == "WriteFile":
         return f"(OWriteFile {n(op[1])} {L.path(op[2])} {L.bytes_(bytes.fromhex(op[3]))})"
     if k == "Link":
@@ -162,6 +166,8 @@ def coq_op(L, op):
         return f"(OWriteFile {n(op[1])} {L.path(op[2])} {L.bytes_(bytes.fromhex(op[4]))})"
     if k == "PlantDir":
         return f"(OPlantDir {L.path(op[1])})"
+    if k == "Wipe":
+        return f"(OWipe {L.path(op[1])})"
     if k == "PlantFile":
         return f"(OPlantFile {L.path(op[1])} {coq_content(L, bytes.fromhex(op[2]), True)})"
     if k in ("Ids", "Len"):
@@ -610,6 +616,20 @@ class World:
                 self.args[len(H)] = arg
                 H.append(j)
                 return ["str", j.id]
+            if k == "OpenSpT":
+                # the same state point with every list VALUE of the mapping (and of its nested mappings) handed over as a
+                # TUPLE - the containers inside the tuple stay mutable (JSON has no tuples: the model sees lists)
+                def tup(v, top=True):
+                    if isinstance(v, dict):
+                        return {kk: tup(x) for kk, x in v.items()}
+                    if isinstance(v, list):
+                        return tuple(v) if top else v
+                    return v
+                arg = tup(untyped(op[2]))
+                j = self.sessions[op[1]].open_job(arg)
+                self.args[len(H)] = arg
+                H.append(j)
+                return ["str", j.id]
             if k == "OpenSpLive":
                 # ["OpenSpLive", s, typed_sp, h, [[steps into sp, steps into H[h].document], ...]]
                 arg = untyped(op[2])
@@ -640,8 +660,20 @@ class World:
                 return ["unit"]
             if k == "MutateArg":
                 arg = self.args[op[1]]
-                if op[4]:   # nested: mutate inside the first container value
+
+                def first_mutable(v):
+                    """the first dict / list at or (through tuples) below v"""
+                    if isinstance(v, (dict, list)):
+                        return v
+                    if isinstance(v, tuple):
+                        for x in v:
+                            m = first_mutable(x)
+                            if m is not None:
+                                return m
+                    return None
+                if op[4]:   # nested: mutate inside the first container value (looking through tuples)
                     for key, val in arg.items():
+                        val = first_mutable(val)
                         if isinstance(val, dict):
                             val[op[2]] = untyped(op[3])
                             break
@@ -688,6 +720,9 @@ class World:
             if k == "DocReset":
                 H[op[1]].document = untyped(op[2])
                 return ["unit"]
+            if k == "DocResetLive":
+                H[op[1]].document = H[op[2]].document
+                return ["unit"]
             if k == "WriteFile":
                 fn = os.path.join(H[op[1]].path, *op[2])
                 os.makedirs(os.path.dirname(fn), exist_ok=True)
@@ -719,6 +754,11 @@ class World:
                 return ["unit"]
             if k == "PlantDir":
                 os.makedirs(os.path.join(self.root, self.real(op[1][0]), *op[1][1:]), exist_ok=True)
+                return ["unit"]
+            if k == "Wipe":
+                # a directory tree (e.g. the whole workspace) is removed behind signac's back
+                import shutil
+                shutil.rmtree(os.path.join(self.root, self.real(op[1][0]), *op[1][1:]))
                 return ["unit"]
             if k == "PlantFile":
                 with open(os.path.join(self.root, self.real(op[1][0]), *op[1][1:]), "wb") as fh:
